@@ -70,6 +70,7 @@ RULE = (
     "subclasses) the data stages, main never returns 4. A case is non-trivial when a cutplace error was reached or "
     "the CID loaded with a changed parse; distinct by its JSON."
     "ODS repeat counts that are no counts (not huge ones) as attribute faults."
+    "Excel cells formatted as dates holding numbers no date system can name (serials 0..61, negative, beyond year 9999), in header and data rows."
 )
 ASSUMPTIONS = [
     "OSError for unreadable paths is not provoked: every path given to cutplace exists and is a readable regular file",
